@@ -76,6 +76,7 @@ Theorem gen_accept_iff_valid : forall l,
   (run_appends gen_append [] l = GOk l <-> valid l = true)
   /\\ (valid l = false -> run_appends gen_append [] l = GRaise E_RuntimeError).
 Proof. exact (tie_accept_iff_valid gen_append gen_append_is_model). Qed.
+Print Assumptions gen_accept_iff_valid.
 """,
 }
 
@@ -166,6 +167,8 @@ Theorem gen_stan_valid_and_sums_any_fuel : forall w p i t b thp thw,
     (forall fuel, (S (Z.to_nat w) <= fuel)%nat -> gen_stan_epochs fuel w p i t b thp thw = GOk l)
     /\\ valid l = true /\\ sum_dur (warmup_part l) = w.
 Proof. exact (tie_stan_any_fuel gen_stan_epochs gen_stan_epochs_is_model gen_stan_fuel_mono). Qed.
+Print Assumptions gen_stan_valid_and_sums.
+Print Assumptions gen_stan_valid_and_sums_any_fuel.
 """
 
 
@@ -253,6 +256,10 @@ def run(ctx, root):
         rc, out, dt = common.sh(["coqc", "-Q", common.COQ, "LV", "-Q", ctx.work, "Cases", path], timeout=600, cwd=ctx.work)
         rec["coqc_s"] = round(dt, 1)
         if rc == 0:
+            n_pa = len(re.findall(r"^Print Assumptions", txt, re.M))
+            n_closed = out.count("Closed under the global context")
+            rec["print_assumptions"] = ("closed under the global context (no axioms)" if n_pa == n_closed else
+                                        " ".join(out.split())[-400:])
             break
         m = re.search(r"line (\d+)", out)
         ln = int(m.group(1)) if m else -1
